@@ -16,7 +16,8 @@ RULE = (
     "layouts and endianness, and a pool of live instances: load further definitions, flip endianness, add a type alias, "
     "default-construct, construct with keyword values, assign a scalar field, mutate IN PLACE an array element / a nested "
     "structure's field / append to a list of a default- or parse-constructed instance, parse, dump, fail a parse on "
-    "truncated input. Oracle (model: every instance owns a deep-copied plain value): after EVERY step each live instance "
+    "truncated input, register a type object of one cstruct object under a new name on another (add_type, replace, a "
+    "typedef and a structure using it there: the type parses and dumps for its owner as before). Oracle (model: every instance owns a deep-copied plain value): after EVERY step each live instance "
     "equals its model (a mutation never leaks), a fresh T() equals the reference zero value, and parsing equals the "
     "reference decode under that object's current endianness irrespective of history. Non-trivial = the history mutates a "
     "nested/array field of a default-constructed instance and later default-constructs again, or interleaves >= 2 cstruct "
@@ -100,7 +101,7 @@ def history(draw):
     n = draw(st.integers(8, 40))
     ninst = 0
     for _ in range(n):
-        k = draw(st.sampled_from(["default", "default", "kw", "kwpartial", "pospartial", "parse", "parse", "scratch-union", "set", "mutate", "mutate", "mutate", "dump", "flip", "loadmore", "alias", "failparse", "fresh", "enumop", "enumop"]))
+        k = draw(st.sampled_from(["default", "default", "kw", "kwpartial", "pospartial", "parse", "parse", "scratch-union", "set", "mutate", "mutate", "mutate", "dump", "flip", "loadmore", "alias", "failparse", "fresh", "enumop", "enumop", "lend"]))
         c = draw(st.integers(0, ncs - 1))
         tname = draw(st.sampled_from(["P", "P", "Q", "W", "O1", "A", "QK", "G", "G"]))
         if k in ("default", "kw", "kwpartial", "pospartial", "parse"):
@@ -116,6 +117,8 @@ def history(draw):
             ops.append(["enumop", c, draw(st.sampled_from(["E", "F"])), draw(st.binary(min_size=4, max_size=4)).hex()])
         elif k in ("loadmore", "alias", "failparse", "fresh"):
             ops.append([k, c, tname])
+        elif k == "lend":
+            ops.append(["lend", c, draw(st.sampled_from(["uint16", "uint32", "int64", "E", "F", "In", "P", "G", "U"])), draw(st.integers(0, 2)), draw(st.binary(min_size=48, max_size=48)).hex()])
     return {"objs": objs, "ops": ops}
 
 
@@ -400,6 +403,35 @@ def run_case(case, ctx):
                 has = f"Alias{step}" in o2["cs"].typedefs
                 if has != (c2 == c):
                     raise Violation("alias-leaked", f"step {step}: alias added on cstruct {c} is {'present' if has else 'absent'} on cstruct {c2}; history {trace}")
+        elif k == "lend":
+            # a type object of cstruct c is registered under a new name on ANOTHER cstruct object (add_type, or a typedef
+            # there): the type stays what it was for its owner -- same values, same bytes, same arrays
+            _, c, tn, via, hexdata = op
+            c2 = (c + 1) % len(objs)
+            owner, other = objs[c]["cs"], objs[c2]["cs"]
+            Tl = getattr(owner, tn)
+            raw = bytes.fromhex(hexdata)
+            if tn == "P":
+                raw = bytes(sem_of(c).encode({"k": "ref", "n": "P"}, sem_of(c).default({"k": "ref", "n": "P"}))) + raw
+
+            def observe():
+                v = lib(Tl, raw)
+                arr = lib(lambda: Tl[2](raw))
+                return (repr(v) if isinstance(v, Err) else (libside.cplain(v), lib(v.dumps)), repr(arr) if isinstance(arr, Err) else ([libside.cplain(e) for e in arr], lib(arr.dumps)), Tl.cs is owner)
+
+            before_ = observe()
+            if via == 1:
+                lib(other.add_type, f"Lent{step}", "uint8")
+            r = lib(other.add_type, f"Lent{step}", Tl, replace=(via == 1))
+            if via == 2 and not isinstance(r, Err):
+                r = lib(other.load, f"typedef Lent{step} Lent{step}b;\nstruct UsesLent{step} {{ uint8 x; Lent{step} y; Lent{step}b z[2]; }};\n", compiled=objs[c2]["compiled"])
+            if isinstance(r, Err):
+                raise Violation("operation-raised", f"step {step} lending {tn} of cstruct {c} to cstruct {c2}: {r}", r.where)
+            after_ = observe()
+            if after_ != before_:
+                raise Violation("type-changed-by-registration-elsewhere", f"step {step}: after registering {tn} of cstruct {c} (endian {objs[c]['endian']}) on cstruct {c2} (endian {objs[c2]['endian']}) the type gives (value+dump, array+dump, owner kept) {after_!r}, before {before_!r}; history {trace}")
+            if f"Lent{step}" in owner.typedefs and c2 != c:
+                raise Violation("alias-leaked", f"step {step}: a name registered on cstruct {c2} appeared on cstruct {c}")
         elif k == "failparse":
             _, c, tname = op
             T = getattr(objs[c]["cs"], tname)
